@@ -34,6 +34,8 @@ RULE = ("a state = one (object, copy route chain) configuration: object in {ever
         "of 0-2 (3) member trees incl. the same tree twice; DNA/standard/continuous matrices x decoration subsets; "
         "namespaces of 0-3 taxa x layouts x decorations} x route chain in {deepcopy, clone(0|1|2), copy "
         "constructor, copy constructor with new namespace, copy.copy, taxon_namespace_scoped_copy, extract_tree}^(1|2); "
+        "plus every sequence of 2 and 3 copy operations (any route, each applied to the original, to the result of an "
+        "earlier step or to the namespace of either) on one small object per kind, the last copy judged; "
         "a transition = one mutation of the alphabet (every structural edit at every node, every length / label / "
         "comment / ad-hoc attribute, every annotation add / drop / change / rename / nested add / in-place value "
         "edit on every annotable, re-encoding, every sequence cell / row / subset / type edit, every namespace "
@@ -53,6 +55,9 @@ ASSUMPTIONS = [
     "labels, lengths and taxa; for documented-shallow copies only label, member identity and annotations",
     "an object whose __dict__ *is* the copy's __dict__ (left behind by the copy constructors) is treated as the copy "
     "itself: attribute-bound annotations owned by it do follow the copy's attributes",
+    "an attribute that is not in the harness's table of known fields and whose name starts with an underscore is hidden "
+    "implementation state (cache, memo): it is not compared between source and copy nor required to stay unchanged, only "
+    "counted (unknown_private_fields_seen); the reachability walk still follows it; unknown public attributes are compared",
     "mutations shared by design are not applied: taxon / namespace edits for namespace-sharing routes, member-tree / "
     "sequence edits for shallow routes",
 ]
@@ -89,6 +94,10 @@ def bounds(tier):
                         "routes": COLL_ROUTES},
         "E1_namespaces": {"taxa": [0, 1, 2, 3], "layouts": ["plain", "removed_low", "sorted_after", "extra_low"],
                           "decoration_subsets": 16, "bitmask_cache": [False, True], "routes": NS_ROUTES},
+        "E1_copy_sequences": {"lengths": [2, 3], "routes": "every route of the kind in every position",
+                              "sources_per_step": "original | result of an earlier step | namespace of either (distinct objects only)",
+                              "objects": [describe(d) for d in SEQ_OBJECTS[tier]], "judged": "last copy of each sequence, all E1 oracles "
+                              "+ earlier objects unchanged" + ("" if q else " + probe mutations on either side")},
         "E2_mutations": {"depth": 1, "sides": ["source", "copy"],
                          "trees": ("all shapes n<=3 x {rooted, unrooted} x {all decorations, none} + undefined rooting x {ann+bip}; "
                                    "all shapes n=4 rooted, all decorations") if q else
@@ -110,6 +119,7 @@ class Ident(object):
         self.by_id = {}
         self.by_dict = {}
         self.alias_hits = 0
+        self.private = set()   # (class, attribute) of unknown underscore attributes met (not judged)
 
     def add(self, obj, name):
         if id(obj) in self.by_id:
@@ -183,7 +193,20 @@ def snap_annotations(obj, I):
 
 
 def extras(obj, known, I, skip=()):
-    return {k: freeze(v, I) for k, v in obj.__dict__.items() if k not in known and k not in skip}
+    """ad-hoc PUBLIC attributes of obj.  An attribute that is not in the table of known fields
+    and whose name starts with an underscore is hidden implementation state (a cache, a
+    memo): it is neither compared between source and copy nor required to stay unchanged -
+    only counted.  (The reachability walk still follows it: a mutable object reachable from
+    both sides is a shared mutable part whatever the attribute is called.)"""
+    out = {}
+    for k, v in obj.__dict__.items():
+        if k in known or k in skip:
+            continue
+        if k.startswith("_"):
+            I.private.add((type(obj).__name__, k))
+            continue
+        out[k] = freeze(v, I)
+    return out
 
 
 NODE_KNOWN = {"_label", "taxon", "age", "_edge", "_child_nodes", "_parent_node", "comments", "_annotations"}
@@ -812,17 +835,21 @@ def identity_problems(kind, src, cp, fam):
     return probs
 
 
+def _public(names):
+    return set(n for n in names if not n.startswith("_"))
+
+
 def extract_only_problems(cp):
     """extract_tree 'copies structure, lengths, labels and taxa only'"""
     probs = []
     d = cp.__dict__
-    if d.get("comments") or len(d.get("_annotations", ())) or set(d) - TREE_KNOWN:
+    if d.get("comments") or len(d.get("_annotations", ())) or _public(set(d) - TREE_KNOWN):
         probs.append("tree carries comments/annotations/extra attributes")
     if d.get("bipartition_encoding"):
         probs.append("tree carries a bipartition encoding")
     for nd in preorder_nodes(cp):
-        nx = set(nd.__dict__) - NODE_KNOWN - {"extraction_source"}
-        ex = set(nd._edge.__dict__) - EDGE_KNOWN
+        nx = _public(set(nd.__dict__) - NODE_KNOWN - {"extraction_source"})
+        ex = _public(set(nd._edge.__dict__) - EDGE_KNOWN)
         if nd.comments or nd._edge.comments or len(nd.__dict__.get("_annotations", ())) or \
                 len(nd._edge.__dict__.get("_annotations", ())) or nx or ex or nd._edge.__dict__.get("_bipartition") is not None:
             probs.append("node/edge carries comments/annotations/extra attributes/bipartition")
@@ -1319,12 +1346,96 @@ def make_pair(desc, chain):
     return obj, cp, None
 
 
+def judge_copy(kind, src, route, ctx, case, sig, title, nontrivial, flags=(), interesting=False, bystanders=()):
+    """Applies one copy route to the live object `src` and judges the copy with all E1 oracles
+    (no exception, source unchanged, oracle 1 equality in the route's view, documented-shared
+    parts identical, oracle 2 reachability).  `sig(category, detail, raises)` builds the
+    signature, `title` names the case in messages.  `bystanders`: [(name, kind, object)] that
+    must not change either (earlier objects of a copy sequence).
+    Returns None or (copy, source snapshot, copy snapshot, equal)."""
+    fam = family(kind, route)
+    s0, I0 = snapshot(kind, src)
+    before = [(nm, k, o, snapshot(k, o)[0]) for nm, k, o in bystanders]
+    try:
+        cp = apply_route(src, route)
+    except Exception as e:
+        ctx.violation(sig("copy-raises", type(e).__name__, True), "%s raised %r" % (title, e), case)
+        return None
+    s0b, _ = snapshot(kind, src)
+    d = diff(s0, s0b)
+    if d:
+        ctx.violation(sig("source-changed", keypath(d[0])),
+                      "%s changed its source at %s: %s -> %s" % (title, "/".join(d[0]), brief(d[1]), brief(d[2])), case)
+    for nm, k, o, sb in before:
+        d = diff(sb, snapshot(k, o)[0])
+        if d:
+            ctx.violation(sig("bystander-changed", keypath(d[0])),
+                          "%s changed %s at %s: %s -> %s" % (title, nm, "/".join(d[0]), brief(d[1]), brief(d[2])), case)
+    if fam == "identity":
+        if cp is not src:
+            ctx.violation(sig("identity"), "%s: clone(1) of a namespace is documented to be the namespace itself" % title, case)
+        return None
+    if cp is None or type(cp) is not type(src):
+        ctx.violation(sig("copy-type"), "%s returned %r" % (title, type(cp).__name__), case)
+        return None
+    if cp is src:
+        ctx.violation(sig("copy-is-source"), "%s returned the source object itself" % title, case)
+        return None
+    # oracle 1
+    try:
+        s1, I1 = snapshot(kind, cp)
+        wc = walk(cp, kind)
+    except Exception as e:
+        ctx.violation(sig("malformed-copy", type(e).__name__), "%s cannot be inspected: %r" % (title, e), case)
+        return None
+    if I1.alias_hits:
+        ctx.count("observed_owner_is_phantom_sharing_the_copys_dict")
+    ctx.maximum("unknown_private_fields_seen", len(I0.private | I1.private))
+    a, b = view(kind, s0, fam), view(kind, s1, fam)
+    if route == "ctor_label":
+        a = copy.deepcopy(a)
+        a["ns"]["label"] = "relabelled"
+        for it in (a["ns"]["annotations"] or {}).get("items", ()):
+            if it.get("bound_attr") == "label":
+                it["value"] = "relabelled"
+    d = diff(a, b)
+    equal0 = d is None
+    if d:
+        ctx.violation(sig("unequal", keypath(d[0])),
+                      "%s differs from its source at %s: source %s, copy %s" % (title, "/".join(d[0]), brief(d[1]), brief(d[2])), case)
+    if fam == "extract":
+        for p in extract_only_problems(cp):
+            ctx.violation(sig("extract-copies-more", p.split()[0]), "extract_tree (%s): %s" % (title, p), case)
+    # oracle 2
+    for what, msg in identity_problems(kind, src, cp, fam):
+        ctx.violation(sig("identity", what), "%s: %s" % (title, msg), case)
+    ws = walk(src, kind)
+    allowed = allowed_shared(kind, src, fam)
+    bad = [k for k in wc if k in ws and k not in allowed]
+    ctx.count("reachability_comparisons")
+    ctx.maximum("max_reachable_mutable_objects", len(ws))
+    if nontrivial and (interesting or (len(flags) >= 3 and fam != "deep")):
+        ctx.sample({"state": title, "documented_depth": fam,
+                    "mutable_objects_reachable_from_source": len(ws), "from_copy": len(wc),
+                    "reachable_from_both": len([k for k in wc if k in ws]), "of_which_documented_shared": len([k for k in wc if k in ws and k in allowed]),
+                    "snapshots_equal": equal0}, 2)
+    if bad:
+        # shortest path first (BFS order of wc)
+        k = bad[0]
+        ctx.violation(sig("shared", short_path(wc[k][1])),
+                      "%s: %d mutable object(s) are reachable from both copy and source beyond the documented shared "
+                      "part, first: %s reached from the copy as %s and from the source as %s" % (
+                          title, len(bad), type(wc[k][0]).__name__, wc[k][1], ws[k][1]), case)
+    if kind == "matrix" and fam in ("ctor", "newns") and "state_alphabets" in src.__dict__:
+        if [id(x) for x in src.state_alphabets] != [id(x) for x in cp.state_alphabets]:
+            ctx.count("observed_ctor_matrix_copy_has_other_state_alphabets")
+    return cp, s0, s1, equal0
+
+
 def check_state(desc, chain, ctx, with_mutations=False, only_mutation=None):
     """E1 oracles for one (object, route chain); optionally the E2 mutation layer"""
     kind = desc["kind"]
     route = chain[-1]
-    fam = family(kind, route)
-    sr = sig_route(kind, chain)
     case = {"kind": "state", "obj": desc, "chain": list(chain)}
     nontrivial = _nontrivial(desc)
     ctx.case(("state", _key(desc), tuple(chain)), nontrivial=nontrivial)
@@ -1340,79 +1451,313 @@ def check_state(desc, chain, ctx, with_mutations=False, only_mutation=None):
         except Exception:
             ctx.count("chain_source_not_constructible")
             return  # reported by the shorter chain
-    s0, _I0 = snapshot(kind, src)
-    try:
-        cp = apply_route(src, route)
-    except Exception as e:
-        ctx.violation("copy-raises|%s|%s|%s" % (kind, sig_route(kind, chain, True), type(e).__name__),
-                      "%s of %s raised %r" % (chain_name(chain), describe(desc), e), case)
-        return
-    s0b, _ = snapshot(kind, src)
-    d = diff(s0, s0b)
-    if d:
-        ctx.violation("source-changed|%s|%s|%s" % (kind, sr, keypath(d[0])),
-                      "%s changed its source %s at %s: %s -> %s" % (chain_name(chain), describe(desc), "/".join(d[0]), brief(d[1]), brief(d[2])), case)
-    if fam == "identity":
-        if cp is not src:
-            ctx.violation("identity|%s|%s" % (kind, sr), "clone(1) of a namespace is documented to be the namespace itself", case)
-        return
-    if cp is None or type(cp) is not type(src):
-        ctx.violation("copy-type|%s|%s" % (kind, sr), "%s of %s returned %r" % (chain_name(chain), describe(desc), type(cp).__name__), case)
-        return
-    if cp is src:
-        ctx.violation("copy-is-source|%s|%s" % (kind, sr), "%s returned the source object itself" % chain_name(chain), case)
-        return
-    # oracle 1
-    try:
-        s1, I1 = snapshot(kind, cp)
-        wc = walk(cp, kind)
-    except Exception as e:
-        ctx.violation("malformed-copy|%s|%s|%s" % (kind, sr, type(e).__name__),
-                      "%s of %s cannot be inspected: %r" % (chain_name(chain), describe(desc), e), case)
-        return
-    if I1.alias_hits:
-        ctx.count("observed_owner_is_phantom_sharing_the_copys_dict")
-    a, b = view(kind, s0, fam), view(kind, s1, fam)
-    if route == "ctor_label":
-        a = copy.deepcopy(a)
-        a["ns"]["label"] = "relabelled"
-        for it in (a["ns"]["annotations"] or {}).get("items", ()):
-            if it.get("bound_attr") == "label":
-                it["value"] = "relabelled"
-    d = diff(a, b)
-    equal0 = d is None
-    if d:
-        ctx.violation("unequal|%s|%s|%s" % (kind, sr, keypath(d[0])),
-                      "%s of %s differs from its source at %s: source %s, copy %s" % (
-                          chain_name(chain), describe(desc), "/".join(d[0]), brief(d[1]), brief(d[2])), case)
-    if fam == "extract":
-        for p in extract_only_problems(cp):
-            ctx.violation("extract-copies-more|%s" % p.split()[0], "extract_tree of %s: %s" % (describe(desc), p), case)
-    # oracle 2
-    for what, msg in identity_problems(kind, src, cp, fam):
-        ctx.violation("identity|%s|%s|%s" % (kind, sr, what), "%s of %s: %s" % (chain_name(chain), describe(desc), msg), case)
-    ws = walk(src, kind)
-    allowed = allowed_shared(kind, src, fam)
-    bad = [k for k in wc if k in ws and k not in allowed]
-    ctx.count("reachability_comparisons")
-    ctx.maximum("max_reachable_mutable_objects", len(ws))
-    if nontrivial and len(desc.get("flags", ())) >= 3 and (len(chain) > 1 or fam != "deep"):
-        ctx.sample({"state": describe(desc), "route_chain": chain_name(chain), "documented_depth": fam,
-                    "mutable_objects_reachable_from_source": len(ws), "from_copy": len(wc),
-                    "reachable_from_both": len([k for k in wc if k in ws]), "of_which_documented_shared": len([k for k in wc if k in ws and k in allowed]),
-                    "snapshots_equal": equal0}, 2)
-    if bad:
-        # shortest path first (BFS order of wc)
-        k = bad[0]
-        ctx.violation("shared|%s|%s|%s" % (kind, sr, short_path(wc[k][1])),
-                      "%s of %s: %d mutable object(s) are reachable from both copy and source beyond the documented shared "
-                      "part, first: %s reached from the copy as %s and from the source as %s" % (
-                          chain_name(chain), describe(desc), len(bad), type(wc[k][0]).__name__, wc[k][1], ws[k][1]), case)
-    if kind == "matrix" and fam in ("ctor", "newns") and "state_alphabets" in src.__dict__:
-        if [id(x) for x in src.state_alphabets] != [id(x) for x in cp.state_alphabets]:
-            ctx.count("observed_ctor_matrix_copy_has_other_state_alphabets")
-    if with_mutations:
+
+    def sig(cat, detail=None, raises=False):
+        if cat == "extract-copies-more":
+            return "extract-copies-more|%s" % detail
+        parts = [cat, kind, sig_route(kind, chain, raises)]
+        if detail is not None:
+            parts.append(detail)
+        return "|".join(parts)
+    res = judge_copy(kind, src, route, ctx, case, sig, "%s of %s" % (chain_name(chain), describe(desc)), nontrivial,
+                     desc.get("flags", ()), len(chain) > 1)
+    if res is not None and with_mutations:
+        _cp, s0, s1, equal0 = res
         run_mutations(desc, chain, ctx, s0, s1, only_mutation, equal0)
+
+
+# ---------------------------------------------------------------------------
+# copy sequences: 2 and 3 copy operations, each taken from the original, from the result of an
+# earlier step or from the namespace of either; the LAST copy of every sequence is judged (its
+# prefixes are sequences of their own).  State that a copy leaves behind - on the source, on
+# the namespace, in a module - and that a later copy trusts shows up here.
+
+SEQ_OBJECTS = {
+    "quick": [
+        {"kind": "tree", "n": 2, "si": 0, "rooted": True, "flags": []},
+        {"kind": "treelist", "members": [1], "flags": []},
+        {"kind": "matrix", "dtype": "dna", "rows": 1, "flags": []},
+        {"kind": "ns", "ntax": 2, "cfg": "plain", "flags": [], "bitmasks": False},
+    ],
+    "thorough": [
+        {"kind": "tree", "n": 2, "si": 0, "rooted": True, "flags": []},
+        {"kind": "tree", "n": 3, "si": 0, "rooted": False, "flags": ["ann", "bip"]},
+        {"kind": "treelist", "members": [1], "flags": []},
+        {"kind": "treelist", "members": [0, 1], "flags": ["ann"]},
+        {"kind": "matrix", "dtype": "dna", "rows": 1, "flags": []},
+        {"kind": "matrix", "dtype": "standard", "rows": 3, "flags": ["ann", "sub"]},
+        {"kind": "ns", "ntax": 2, "cfg": "plain", "flags": [], "bitmasks": False},
+        {"kind": "ns", "ntax": 3, "cfg": "removed_low", "flags": ["ann"], "bitmasks": True},
+    ],
+}
+# every route of the menu is used in every position of a sequence, in both tiers
+SETUP_SKIP_QUICK = ()
+PROBE_MUTATIONS = {"tree": (["tree_label"], ["node_label", 0], ["new_child", 0], ["ann_add", ["tree"]], ["ns_add"], ["taxon_label", 0]),
+                   "treelist": (["list_label"], ["list_append"], ["member", 0, "node_label", 0], ["ann_add", ["list"]], ["ns_add"],
+                                ["taxon_label", 0]),
+                   "matrix": (["matrix_label"], ["row_del", 0], ["cell_set", 0, 0], ["ann_add", ["matrix"]], ["ns_add"],
+                              ["taxon_label", 0]),
+                   "ns": (["ns_label"], ["ns_add"], ["ns_remove", 0], ["taxon_label", 0], ["ann_add", ["ns"]])}
+
+
+def _probe_category(kind, m):
+    n = m[0]
+    if n.startswith("taxon_"):
+        return "taxon"
+    if n.startswith("ns_"):
+        return "own" if kind == "ns" else "ns"
+    if n in ("member", "cell_set"):
+        return "member"
+    return "own"
+
+
+def seq_sources(kind, objs):
+    """objs: the original followed by the results of the executed steps (None = step failed).
+    Returns [(spec, kind, object)] of distinct live sources: ["orig"], ["nsof","orig"], ["res", j],
+    ["nsof", j]; an object that IS an earlier source is not listed twice."""
+    out = []
+    seen = set()
+
+    def add(spec, k, o):
+        if o is None or id(o) in seen:
+            return
+        seen.add(id(o))
+        out.append((spec, k, o))
+    for j, (k, o) in enumerate(objs):
+        if o is None:
+            continue
+        add(["orig"] if j == 0 else ["res", j], k, o)
+        if k != "ns":
+            add(["nsof", "orig"] if j == 0 else ["nsof", j], "ns", o.__dict__.get("_taxon_namespace"))
+    return out
+
+
+def seq_execute(desc, steps):
+    """fresh original + the given steps.  Returns objs = [(kind, object-or-None)]"""
+    kind = desc["kind"]
+    objs = [(kind, BUILDERS[kind](desc))]
+    for spec, route in steps:
+        srcs = seq_sources(kind, objs)
+        hit = [(k, o) for sp, k, o in srcs if sp == spec]
+        if not hit:
+            objs.append((kind, None))
+            continue
+        k, o = hit[0]
+        try:
+            objs.append((k, apply_route(o, route)))
+        except Exception:
+            objs.append((k, None))
+    return objs
+
+
+def seq_options(desc, steps, tier, judged):
+    """every (source spec, route) that can follow the executed prefix `steps`"""
+    kind = desc["kind"]
+    objs = seq_execute(desc, steps)
+    if any(o is None for _k, o in objs):
+        return []
+    out = []
+    for spec, k, _o in seq_sources(kind, objs):
+        for r in routes_of(k):
+            if not judged and tier == "quick" and r in SETUP_SKIP_QUICK:
+                continue
+            out.append([spec, r])
+    return out
+
+
+def _srcname(spec):
+    if spec == ["orig"]:
+        return "X"
+    if spec == ["nsof", "orig"]:
+        return "ns(X)"
+    if spec[0] == "res":
+        return "r%d" % spec[1]
+    return "ns(r%d)" % spec[1]
+
+
+def seq_name(steps):
+    return "; ".join("r%d=%s(%s)" % (i + 1, r, _srcname(spec)) for i, (spec, r) in enumerate(steps))
+
+
+class _Buffer(object):
+    """forwards coverage to the real Ctx, keeps violations back (signature = (category, detail))"""
+
+    def __init__(self, ctx=None):
+        self.ctx = ctx
+        self.viol = []
+
+    def violation(self, key, message, case):
+        self.viol.append((key, message))
+
+    def count(self, name, n=1):
+        if self.ctx is not None:
+            self.ctx.count(name, n)
+
+    def maximum(self, name, v):
+        if self.ctx is not None:
+            self.ctx.maximum(name, v)
+
+    def sample(self, obj, limit=4):
+        if self.ctx is not None:
+            self.ctx.sample(obj, limit)
+
+
+def _catkey(cat, detail=None, raises=False):
+    return (cat, detail, raises)
+
+
+def derivation(steps):
+    """the steps the judged (last) copy depends on - those that produced its source - renumbered"""
+    need = set()
+
+    def mark(k):  # k: 1-based step number
+        if k in need:
+            return
+        need.add(k)
+        sp = steps[k - 1][0]
+        if sp[0] == "res" or (sp[0] == "nsof" and sp[1] != "orig"):
+            mark(sp[1])
+    mark(len(steps))
+    order = sorted(need)
+    renum = {old: new + 1 for new, old in enumerate(order)}
+    out = []
+    for k in order:
+        sp, r = steps[k - 1]
+        if sp[0] == "res" or (sp[0] == "nsof" and sp[1] != "orig"):
+            sp = [sp[0], renum[sp[1]]]
+        out.append([list(sp), r])
+    return out
+
+
+def shorten(steps):
+    """the sequence without its first step; references to that step's result go to its source"""
+    sp1 = steps[0][0]
+    out = []
+    for sp, r in steps[1:]:
+        if sp[0] == "res":
+            sp = list(sp1) if sp[1] == 1 else ["res", sp[1] - 1]
+        elif sp[0] == "nsof" and sp[1] != "orig":
+            sp = ["nsof", "orig"] if sp[1] == 1 else ["nsof", sp[1] - 1]
+        out.append([list(sp), r])
+    return out
+
+
+def _seq_source(desc, steps):
+    """executes steps[:-1]; returns (kind, source object, objs, sources) of the last step or None"""
+    objs = seq_execute(desc, steps[:-1])
+    if any(o is None for _k, o in objs):
+        return None
+    srcs = seq_sources(desc["kind"], objs)
+    hit = [(k, o) for sp, k, o in srcs if sp == steps[-1][0]]
+    if not hit:
+        return None
+    return hit[0][0], hit[0][1], objs, srcs
+
+
+def check_sequence(desc, steps, ctx, tier="quick"):
+    """executes steps[:-1] on a fresh original and judges the last step.  A verdict that the
+    last copy also earns without the side steps (only the steps that produced its source) or,
+    for a plain chain of copies, with one copy less, does not depend on the history: it is
+    reported under the ordinary single-copy signature; only a verdict that needs the whole
+    sequence gets a copy-sequence signature."""
+    kind = desc["kind"]
+    steps = [[list(sp), r] for sp, r in steps]
+    case = {"kind": "sequence", "obj": desc, "steps": steps, "tier": tier}
+    ctx.case(("seq", _key(desc), tuple((tuple(sp), r) for sp, r in steps)), nontrivial=True)
+    ctx.count("states")
+    ctx.count("states_copy_sequence")
+    ctx.count("copy_sequences_of_length_%d" % len(steps))
+    got = _seq_source(desc, steps)
+    if got is None:
+        ctx.count("sequence_prefix_not_executable")
+        return
+    skind, src, objs, srcs = got
+    spec, route = steps[-1]
+    # kinds of the steps: documented depth of each route for the kind of object it was applied to
+    fams = [family(objs[j + 1][0], r) for j, (sp, r) in enumerate(steps[:-1])] + [family(skind, route)]
+    famchain = "->".join(fams)
+    title = "[%s] on X = %s" % (seq_name(steps), describe(desc))
+    by = [(_srcname(sp), k, o) for sp, k, o in srcs if o is not src and k != "ns"]
+    buf = _Buffer(ctx)
+    res = judge_copy(skind, src, route, buf, case, _catkey, title, True, (), len(steps) == 3 and spec[0] == "res", by)
+    if buf.viol:
+        base = set()
+        dsteps = derivation(steps)
+        if len(dsteps) == len(steps):
+            dsteps = shorten(steps)               # no side steps: a plain chain of copies - try one copy less
+        g2 = _seq_source(desc, dsteps)
+        if g2 is not None and g2[0] == skind:
+            b2 = _Buffer()
+            judge_copy(g2[0], g2[1], route, b2, case, _catkey, title, True)
+            base = set(k for k, _m in b2.viol)
+        prov = [steps[spec[1] - 1][1]] if spec[0] == "res" else []
+        for key, msg in buf.viol:
+            cat, detail, raises = key
+            if key in base:
+                if cat == "extract-copies-more":
+                    sg = "extract-copies-more|%s" % detail
+                else:
+                    sg = "|".join([cat, skind, sig_route(skind, prov + [route], raises)] + ([detail] if detail is not None else []))
+            else:
+                sg = "copy-sequence|%s|%s|%s" % (famchain, kind if skind == kind else "%s.%s" % (kind, skind),
+                                                 cat if detail is None else "%s:%s" % (cat, detail))
+            ctx.violation(sg, msg, case)
+
+    def sig(cat, detail=None, raises=False):
+        return "copy-sequence|%s|%s|%s" % (famchain, kind if skind == kind else "%s.%s" % (kind, skind),
+                                           cat if detail is None else "%s:%s" % (cat, detail))
+    if res is None or tier == "quick":
+        return
+    # thorough: a few probe mutations on either side of the judged pair
+    fam = family(skind, route)
+    sh = shared_categories(skind, fam)
+    _cp, s_src0, s_cp0, _eq = res
+    b0 = {"source": body(skind, s_cp0, fam), "copy": body(skind, s_src0, fam)}
+    for m in PROBE_MUTATIONS[skind]:
+        for side in ("source", "copy"):
+            objs = seq_execute(desc, steps)
+            if any(o is None for _k, o in objs):
+                continue
+            hit = [(k, o) for sp, k, o in seq_sources(kind, objs[:-1]) if sp == spec]
+            if not hit:
+                continue
+            s2, c2 = hit[0][1], objs[-1][1]
+            target, other = (s2, c2) if side == "source" else (c2, s2)
+            if _probe_category(skind, m) in sh:
+                continue
+            ctx.count("transitions")
+            ctx.count("transitions_copy_sequence")
+            try:
+                with warnings.catch_warnings():
+                    warnings.simplefilter("ignore")
+                    apply_mutation(skind, target, m)
+            except Exception:
+                ctx.count("mutation_raised")
+                continue
+            d = diff(b0[side], body(skind, snapshot(skind, other)[0], fam))
+            if d:
+                ctx.violation(sig("visible", mutation_class(m)),
+                              "%s: %s applied to the %s of the last copy is visible on the other side at %s: %s -> %s" % (
+                                  title, m, side, "/".join(d[0]), brief(d[1]), brief(d[2])), case)
+
+
+def sequence_chunks(tier):
+    out = []
+    for d in SEQ_OBJECTS[tier]:
+        for first in seq_options(d, [], tier, False):
+            out.append({"what": "seq", "obj": d, "first": first, "tier": tier})
+    return out
+
+
+def run_sequences(chunk, ctx):
+    d, first, tier = chunk["obj"], chunk["first"], chunk["tier"]
+    # length 2: the second copy is judged (the first one alone is a state of the E1 layer)
+    for o2 in seq_options(d, [first], tier, True):
+        check_sequence(d, [first, o2], ctx, tier)
+    # length 3
+    for s2 in seq_options(d, [first], tier, False):
+        for o3 in seq_options(d, [first, s2], tier, True):
+            check_sequence(d, [first, s2, o3], ctx, tier)
 
 
 def _side_mutations(kind, obj, fam):
@@ -1670,6 +2015,7 @@ def chunks(tier):
             out.append({"what": "states", "kind": name, "lo": lo, "hi": min(len(objs), lo + step), "tier": tier})
     for d in mutation_other_objects(tier):
         out.append({"what": "mut", "obj": d, "routes": routes_of(d["kind"]), "tier": tier})
+    out.extend(sequence_chunks(tier))
     return out
 
 
@@ -1730,6 +2076,9 @@ def run_chunk(chunk, ctx):
         ctx.count("objects_mutated")
         ctx.sample({"mutated_object": describe(d), "routes": chunk["routes"],
                     "mutations_enabled_on_source": len(mutations(d["kind"], BUILDERS[d["kind"]](d)))}, 1)
+    elif what == "seq":
+        run_sequences(chunk, ctx)
+        ctx.sample({"copy_sequences_starting_with": seq_name([chunk["first"]]), "X": describe(chunk["obj"])}, 1)
     else:
         raise ValueError(what)
     return None
@@ -1757,6 +2106,8 @@ def replay(case, ctx):
     case = _norm(case)
     if case.get("kind") == "state":
         check_state(case["obj"], case["chain"], ctx)
+    elif case.get("kind") == "sequence":
+        check_sequence(case["obj"], case["steps"], ctx, case.get("tier", "quick"))
     elif case.get("kind") == "mutation":
         check_state(case["obj"], case["chain"], ctx, with_mutations=True, only_mutation=case["mutation"])
     else:
